@@ -11,7 +11,7 @@ Fixpoint interp_from (x0 y0 : Q) (tab : list (Q * Q)) (x : Q) : Q :=
   | (x1, y1) :: rest =>
       if Qleb x x1
       then (if Qeqb x1 x0 then y1
-            else y0 + (y1 - y0) * ((x - x0) / (x1 - x0)))
+            else Qred (y0 + (y1 - y0) * ((x - x0) / (x1 - x0))))   (* Qred: same value, small representation *)
       else interp_from x1 y1 rest x
   end.
 Definition interp (tab : list (Q * Q)) (x : Q) : Q :=
